@@ -10,9 +10,9 @@
 From Coq Require Import List NArith Bool String.
 From TG.Gen Require Import GenTokens GenGrammar GenCompletion.
 From TG.Model Require Import Chars Tree ParserPrims GInterp CoreAst AstToCore Scope Indexer Pipeline PipelineAll.
-From TG.Model Require SymbolMap SymbolWf IndexerOps OutlineIndex Outline DocComments.
+From TG.Model Require SymbolMap SymbolWf IndexerOps OutlineIndex Outline DocComments SymbolClosed.
 From TG.Proofs Require Import BridgeSymbol PipelineAllProofs PipelineAllRanges.
-From TG.Proofs Require BridgeText IndexerPipeline.
+From TG.Proofs Require BridgeText IndexerPipeline SymbolClosedProofs.
 Import ListNotations.
 Close Scope string_scope.
 Open Scope N_scope.
@@ -54,8 +54,8 @@ Print Assumptions PipelineAll_fields.
     outline slice reach no modelled panic, and the symbol-map readers (find_symbol_at behind goto_definition and
     references; iter_symbols_in_range behind inlay_hint) do not fail on the joined state.  The six answers without an
     error channel (q_goto q_references q_diagnostics q_folding q_links q_completion) are total functions.
-    (q_outline / q_hover / q_inlay: their `expect("invalid id")` lookups through payload ids are covered by the
-    correspondence, which never observed an error; not proved.) *)
+    (q_outline / q_hover / q_inlay: their `expect("invalid id")` lookups go through payload ids; see
+    PipelineAll_handlers_total_if_closed below.) *)
 Theorem analyze_all_total : forall (files : list (text * text)) (root : text),
   components root <> [] -> Forall (fun pt => components (fst pt) <> []) files ->
   exists pfuel cfuel a,
@@ -84,6 +84,29 @@ Check analyze_all_total : forall (files : list (text * text)) (root : text),
          (forall f p, exists o, q_references_sm A f p = SymbolMap.SOk o) /\
          (forall loc, exists o, SymbolMap.iter_symbols_in_range (aa_sm A) loc = SymbolMap.SOk o)).
 Print Assumptions analyze_all_total.
+
+(** The three handlers that follow payload ids (`expect("invalid … id")`): on an id-closed joined state
+    (model/SymbolClosed.v [sm_closedb]: every id in a payload, a per-file symbol list or an interval map is allocated and
+    every payload has the shape of its arena -- an executable check that the extracted analysis evaluates on every
+    workspace ("closed") and tools/bridge_selftest.py requires to be true) they never fail.  A CHECKED hypothesis, not a
+    theorem about the two indexer models. *)
+Theorem PipelineAll_handlers_total_if_closed : forall A : all_answers,
+  SymbolClosed.sm_closedb (aa_sm A) = true ->
+  (forall f, exists o, q_outline A f = SymbolMap.SOk o) /\
+  (forall f p, exists o, q_hover A f p = SymbolMap.SOk o) /\
+  (forall f lo hi, exists o, q_inlay A f lo hi = SymbolMap.SOk o).
+Proof.
+  intros A C. split; [|split].
+  - intros f. exact (SymbolClosedProofs.document_symbol_ok _ C f).
+  - intros f p. exact (SymbolClosedProofs.hover_ok _ C _ f p).
+  - intros f lo hi. exact (SymbolClosedProofs.inlay_hint_ok _ C _ _).
+Qed.
+Check PipelineAll_handlers_total_if_closed : forall A : all_answers,
+  SymbolClosed.sm_closedb (aa_sm A) = true ->
+  (forall f, exists o, q_outline A f = SymbolMap.SOk o) /\
+  (forall f p, exists o, q_hover A f p = SymbolMap.SOk o) /\
+  (forall f lo hi, exists o, q_inlay A f lo hi = SymbolMap.SOk o).
+Print Assumptions PipelineAll_handlers_total_if_closed.
 
 (** RANGE VALIDITY (C17 for the whole record): every range in the definition / references answers and in the symbol
     list of a range, every diagnostic range of every file (syntax errors and index diagnostics, as merged per file) and
@@ -119,6 +142,7 @@ Definition pa_ex : option all_answers :=
   analyze_all 200 10 [(IndexerPipeline.pipe_ex_path, BridgeText.bridge_example_text)] IndexerPipeline.pipe_ex_path.
 Theorem PipelineAll_nonvacuous : exists A, pa_ex = Some A /\
   aa_sm_ok A = true /\
+  SymbolClosed.sm_closedb (aa_sm A) = true /\
   q_goto A 0 38 = Some (mkR 0 6 7) /\
   q_references A 0 6 = Some [mkR 0 38 39] /\
   q_goto_sm A 0 38 = SymbolMap.SOk (Some (SymbolMap.mkFR 0 6 7)) /\
